@@ -163,8 +163,9 @@ def enumerate_items(repo):
                     and isinstance(node.body[0].value.value, str):
                 first = node.body[1].lineno if len(node.body) > 1 else node.body[0].end_lineno + 1     # skip the docstring
             lines = set()
+            start = min([node.lineno] + [d.lineno for d in node.decorator_list])      # (co_firstlineno is the line of the first decorator)
             for (l0, nm), ls in ex.items():
-                if node.lineno <= l0 <= node.end_lineno:
+                if start <= l0 <= node.end_lineno:
                     lines |= {l for l in ls if first <= l <= node.end_lineno}
             public = not node.name.startswith('_') or (node.name.startswith('__') and node.name.endswith('__'))
             items.append({'file': rel, 'name': name, 'owner': owner, 'public': public, 'first': first, 'last': node.end_lineno,
@@ -215,6 +216,8 @@ def build_table(repo, hits_per_process):
         hit = {l for l in it['lines'] if l in d}
         reached = bool(hit)
         reason = _excluded_fn(it['name'], it['owner'])
+        if not it['lines'] and not reason:
+            reason = 'no executable statement (abstract method / docstring only)'
         status = 'reached' if reached else ('excluded' if reason else 'not reached')
         n_fun[status] += 1
         row = {'status': status, 'lines': '%d/%d' % (len(hit), len(it['lines'])), 'processes': max([d[l] for l in hit], default=0)}
